@@ -104,7 +104,7 @@ func runUnits(c *Ctx, lab *probe.Lab, units []*probe.Unit, race bool) error {
 	lab.Generate(units, 16)
 	for _, u := range units {
 		for _, b := range u.Run.Contract() {
-			c.Violate("cli-contract:"+sigWords(b), fmt.Sprintf("unit %s: %s\nargs: %v\nstdout:\n%s\nstderr:\n%s", u.ID, b, u.Run.Args, u.Run.Res.Stdout, u.Run.Res.Stderr), unitFiles(u))
+			c.Side("C10,C12", "cli-contract:"+sigWords(b), fmt.Sprintf("unit %s: %s\nargs: %v\nstdout:\n%s\nstderr:\n%s", u.ID, b, u.Run.Args, u.Run.Res.Stdout, u.Run.Res.Stderr), unitFiles(u))
 		}
 	}
 	if err := lab.Compile(units); err != nil {
@@ -193,7 +193,7 @@ func behaviourUnits(c *Ctx, lab *probe.Lab, units []*probe.Unit, nontrivial func
 		if !u.Accepted {
 			c.Add("configs_rejected_by_tool", 1)
 			// the generator only emits configurations the documentation accepts
-			c.Violate("generator-config-rejected:"+sigWords(rejectReason(u)), fmt.Sprintf("unit %s: a configuration inside the documented language was rejected: %s", u.ID, rejectReason(u)), unitFiles(u))
+			rejected(c, rejectReason(u), fmt.Sprintf("unit %s: a configuration inside the documented language was rejected: %s", u.ID, rejectReason(u)), unitFiles(u))
 			continue
 		}
 		if !u.Compiled {
@@ -202,7 +202,7 @@ func behaviourUnits(c *Ctx, lab *probe.Lab, units []*probe.Unit, nontrivial func
 		}
 		if u.ProbeErr != "" && len(u.Results) == 0 {
 			c.Add("probe_failures", 1)
-			c.Violate("probe:"+sigWords(u.ProbeErr), fmt.Sprintf("unit %s: %s", u.ID, u.ProbeErr), unitFiles(u))
+			c.Side("C01", "probe:"+sigWords(u.ProbeErr), fmt.Sprintf("unit %s: %s", u.ID, u.ProbeErr), unitFiles(u))
 			continue
 		}
 		exp := RunModel(u.Cfg, u.Ops, nil)
@@ -371,4 +371,20 @@ func judgeShadowUnits(c *Ctx, units []*probe.Unit, twins []*cfg.Config, labels [
 			c.Violate(sig, fmt.Sprintf("the symbol %s of the configuration's own package (role %s) is not what the generated container uses: a local variable of the generated code with the same name shadows it\n%s", strings.SplitN(labels[k], ":", 2)[1], strings.SplitN(labels[k], ":", 2)[0], mm[0].Text), files)
 		}
 	}
+}
+
+// rejected handles a generated configuration (inside the documented language) that the tool rejects. Whose business that is
+// depends on the step that rejected it: the scope rule is C05's, cycles are C07's, missing references C06's; anything else is
+// the grammar's (C11). In the check of another property there was simply nothing to observe.
+func rejected(c *Ctx, reason, what string, files map[string]string) {
+	owner := "C11"
+	switch {
+	case strings.Contains(reason, "ValidateServicesScopes"):
+		owner = "C05"
+	case strings.Contains(reason, "ValidateCircularDeps") || strings.Contains(reason, "ircular"):
+		owner = "C07"
+	case strings.Contains(reason, "ValidateParamsExist") || strings.Contains(reason, "ValidateServicesExist"):
+		owner = "C06"
+	}
+	c.Side(owner, "generator-config-rejected:"+sigWords(reason), what, files)
 }
